@@ -252,6 +252,13 @@ def check_grammar_symbol_sorts(ctx, rep, funcs, rule=RULE + '.cfg', equalities=T
             other_name = 'Terminal' if want == VAR else 'Variable'
             established = any((at[0] == 'isinstance' and at[3] is True and at[1] == txt and cls_name in str(at[2])) for at in atoms) \
                 or (la == {VAR, TER} and any((at[0] == 'isinstance' and at[3] is False and at[1] == txt and other_name in str(at[2])) for at in atoms))
+            if not established:
+                # a predicate of the grammar classes that was tested: r.is_unit_rule() says isinstance(r.alternative.symbols[0], Variable)
+                for at in atoms:
+                    if at[0] == 'truthy' and at[3] is True and str(at[1]).endswith('()'):
+                        for (etxt, kname) in _predicate_facts(ctx, at[1]):
+                            if etxt.replace(' ', '') == txt.replace(' ', '') and kname == cls_name:
+                                established = True
             if not established and isinstance(a, ast.Name) and nid is not None:
                 # flow-sensitive: the binding of the name that reaches this test (the typer joins all bindings of a name)
                 cfg0 = fx.cfg
@@ -343,3 +350,30 @@ def _check_symbol_equality(ctx, rep, f, env, s, rule, VAR, TER):
         rep.violates(rule, f, s, '`{}`: {} may {} a {} here, but it is compared by name with {} {}: a {} spelled like the {} compares equal to it and is treated as the {} (e.g. the rule A -> \'A\' with the terminal A is taken for the useless rule A -> A)'.format(
             u(s), txt, 'contain' if la else 'be', other_name, 'a list of' if la else 'the', cls_name + ('s' if la else ''), other_name.lower(), cls_name.lower(), cls_name.lower()))
     return 1
+
+
+def _predicate_facts(ctx, call_text, depth=0):
+    """[(expression text, class name)] that hold when the parameterless predicate method call `X.m()` is true: the isinstance
+    conjuncts of the method's single return expression with self replaced by X, following predicates it delegates to"""
+    try:
+        e = ast.parse(call_text, mode='eval').body
+    except SyntaxError:
+        return []
+    if not (isinstance(e, ast.Call) and isinstance(e.func, ast.Attribute) and not e.args and not e.keywords) or depth > 2:
+        return []
+    recv, mname = u(e.func.value), e.func.attr
+    out = []
+    for c in ctx.prog.classes.values():
+        if c.module.base != 'cfg.py' or mname not in c.methods:
+            continue
+        m = c.methods[mname]
+        body = [b for b in m.node.body if not (isinstance(b, ast.Expr) and isinstance(b.value, ast.Constant))]
+        if len(body) != 1 or not isinstance(body[0], ast.Return) or body[0].value is None:
+            continue
+        conj = body[0].value.values if isinstance(body[0].value, ast.BoolOp) and isinstance(body[0].value.op, ast.And) else [body[0].value]
+        for x in conj:
+            if isinstance(x, ast.Call) and isinstance(x.func, ast.Name) and x.func.id == 'isinstance' and len(x.args) == 2 and isinstance(x.args[1], ast.Name):
+                out.append((u(x.args[0]).replace('self', recv, 1), x.args[1].id))
+            elif isinstance(x, ast.Call) and isinstance(x.func, ast.Attribute) and not x.args:
+                out += _predicate_facts(ctx, u(x).replace('self', recv, 1), depth + 1)
+    return out
